@@ -93,6 +93,10 @@ class C20(Check):
         for L in range(1, 5):
             for seq in itertools.product(alpha, repeat=L):
                 cases.append({"part": "B", "pb": 2, "ops": list(seq) + [{"op": "flush", "outs": []}, {"op": "flush", "outs": []}]})
+        # the Lean witness `raceActs` (ctl_no_attempt_after_fatal_defect) replayed on the real code: the sender thread's fatal
+        # error is interleaved at the log call between Connection.send's `disconnected`/`sending` tests and its deferred enqueue
+        cases.append({"part": "B", "pb": 512, "ops": [{"op": "send", "i": 0, "n": 1, "o": 3}, {"op": "send_raced", "i": 1, "n": 1, "outs": [4]},
+                                                        {"op": "flush", "outs": [{"o": "accept", "k": 1}]}, {"op": "flush", "outs": []}]})
         return cases
 
     def generate(self, rng, tier):
@@ -198,6 +202,17 @@ class C20(Check):
                     s1.script = [self._o(op["o"])]
                     con.send(d)
                     s1.script = []
+                elif op["op"] == "send_raced":
+                    d = data(op["i"], op["n"])
+                    if not con.disconnected: queued += d
+                    real_debug = of_01.log.debug
+                    def hook(msg, *a, **k):
+                        if msg == "deferred sender is sending!":       # the point between the flag read and the enqueue
+                            of_01.log.debug = real_debug
+                            iteration([con], op["outs"])
+                    of_01.log.debug = hook
+                    try: con.send(d)
+                    finally: of_01.log.debug = real_debug
                 elif op["op"] == "flush":
                     iteration([con], op["outs"])
                 elif op["op"] == "envenq":
@@ -226,6 +241,11 @@ class C20(Check):
             if op["op"] == "send":
                 total += op["n"]
                 acts += [{"a": "coopCheck", "d": data(op["i"], op["n"]).hex()}, dict(a="coopGo", **self._o(op["o"])), {"a": "coopEnq"}]
+            elif op["op"] == "send_raced":
+                total += op["n"]
+                acts += [{"a": "coopCheck", "d": data(op["i"], op["n"]).hex()}, {"a": "coopGo", "o": "again"}, {"a": "senderBegin"}]
+                acts += [dict(a="senderSend", **self._o(o)) for o in op["outs"]]
+                acts += [{"a": "senderSend", "o": "accept", "k": 1 << 30}] * (total + 2) + [{"a": "senderFinish"}, {"a": "coopEnq"}]
             elif op["op"] == "flush":
                 acts.append({"a": "senderBegin"})
                 acts += [dict(a="senderSend", **self._o(o)) for o in op["outs"]]
@@ -265,11 +285,12 @@ class C20(Check):
         return None
 
     def finding_key(self, case, obs, failure):
-        return case["part"] + ":" + failure[:60]
+        raced = ":raced-send" if any(op["op"] == "send_raced" for op in case["ops"]) else ""
+        return case["part"] + raced + ":" + failure[:60]
 
     def nontrivial(self, case, obs):
         for op in case["ops"]:
-            for o in ([op["o"]] if "o" in op else op.get("outs", [])):
+            for o in ([op["o"]] if "o" in op else op.get("outs", [])) if op["op"] != "send_raced" else [4]:
                 o = self._o(o)
                 if o["o"] != "accept" or o["k"] < 1 << 20: return True
         return False
